@@ -148,6 +148,7 @@ type LeafOpts struct {
 	OCSP   []string
 	RSA    bool
 	KU     *x509.KeyUsage // default: digitalSignature; 0 = no keyUsage extension
+	NoAKI  bool           // no authorityKeyIdentifier extension
 	NoSKI  bool           // no subjectKeyIdentifier extension (what x509.CreateCertificate produces for end entities by default)
 }
 
@@ -178,7 +179,13 @@ func (ca *CA) IssueLeaf(o LeafOpts) *Leaf {
 	if o.KU != nil {
 		tmpl.KeyUsage = *o.KU
 	}
-	der, err := x509.CreateCertificate(rand.Reader, tmpl, ca.Cert, key.Public(), ca.Key)
+	parent := ca.Cert
+	if o.NoAKI {
+		cp := *ca.Cert
+		cp.SubjectKeyId = nil // CreateCertificate copies the parent's SKI into the child's AKI
+		parent = &cp
+	}
+	der, err := x509.CreateCertificate(rand.Reader, tmpl, parent, key.Public(), ca.Key)
 	if err != nil {
 		panic(err)
 	}
